@@ -20,6 +20,8 @@ extern "C" int LLVMFuzzerTestOneInput(const uint8_t* data, size_t size) {
       if (valid && (l == 0 || off + l > size)) fuzz::fail("isValid accepted a buffer whose sequence at offset %zu is malformed or truncated", off);
       off += l ? l : 1;
     }
+    // the empty range at the end of the block: nothing may be read, nothing is decoded
+    if (Unicode::fromString(p + size, 0) != 0) fuzz::fail("fromString of an empty range returned a code point");
     if (valid && multi) { fuzz::label("valid_multibyte"); fuzz::nontrivial(data, size); }
     String s(p, size); (void)Unicode::isValid(s); (void)Unicode::fromString(s);
   } else {
